@@ -180,6 +180,15 @@ def targeted_cases(chk):
         add("export/same-subquery-two-aliases", [["insert", "into", False, [b], None,
                                                   select([item(col("v", "m"), "v1"), item(col("v", "n"), "v2")],
                                                          [from_expr(derived(same, "m"), [join(derived(copy.deepcopy(same), "n"), eq(col("v", "m"), col("v", "n")))])]), False]])
+    # session metadata is positional: a table created in the script, then written again WITHOUT a column list — the select items are
+    # wired to the registered columns by position, so the registered ORDER must not depend on the seed
+    for (a, b) in [("stage", "feed"), ("t1", "t2"), ("north", "south")]:
+        cols5 = ["alpha", "e", "k", "v", "w", "zeta"]
+        add("session/positional", [
+            ["ctas", [a], False, False, select([item(col(c)) for c in cols5], [from_expr(table(b))]), False],
+            ["insert", "into", False, [a], None, select([item(col("p" + c)) for c in cols5], [from_expr(table(b + "_2"))]), False],
+            ["insert", "into", False, ["fin"], None, select([item(["star", []])], [from_expr(table(a))]), False]],
+            {"s9.unrelated": ["q"]})
     return out
 
 
@@ -194,6 +203,13 @@ def targeted_text_cases():
         out.append({"kind": "targeted", "tag": "two-writes/session",
                     "case": {"sql": swap + f";\ninsert into y select * from {x};\ninsert into z select * from {b}", "dialect": "vertica",
                              "metadata": {"s9.unrelated": ["q"]}}})
+    # tables that carry role TAGS (written by a statement that reads nothing, read by a statement that writes nothing, self loop)
+    # next to ordinary lineage: the three role accessors are computed from shared per-tag sets
+    for (a, b, c) in [("audit", "final", "src"), ("t1", "t2", "t3"), ("log", "dst", "feed")]:
+        for d in ("ansi", "non-validating"):
+            out.append({"kind": "targeted", "tag": "roles/tags", "case": {
+                "sql": f"insert into {a} values (1, 'load started');\ninsert into {b} select x, y from {c};\nselect x from lonely_{c};\n"
+                       f"create table made_{a} (x int);\ninsert into loop_{b} select x from loop_{b}", "dialect": d}})
     return out
 
 
@@ -639,9 +655,11 @@ def accessor_orders(rng):
 def check_orders(chk, inputs, dumps0, workdir, stats):
     """accessor-call permutations on a stratified sample (single hash seed: the property here is about call order)"""
     n = 240 if chk.tier == "thorough" else 56
-    strata = {"flags-matter": [], "intermediate": [], "error": [], "metadata": [], "other": []}
+    strata = {"flags-matter": [], "intermediate": [], "error": [], "metadata": [], "other": [], "tags": []}
     for inp, d in zip(inputs, dumps0):
-        if "failed" in d:
+        if inp.get("tag") == "roles/tags":
+            strata["tags"].append(inp)
+        elif "failed" in d:
             strata["error"].append(inp)
         elif inp["case"].get("metadata"):
             strata["metadata"].append(inp)
@@ -652,8 +670,9 @@ def check_orders(chk, inputs, dumps0, workdir, stats):
         elif d.get("col_default") or d.get("source"):
             strata["other"].append(inp)
     sample = []
-    quota = {"flags-matter": n * 3 // 10, "intermediate": n * 2 // 10, "error": n // 10, "metadata": n * 2 // 10, "other": n * 2 // 10}
-    for k in ("flags-matter", "intermediate", "error", "metadata", "other"):
+    quota = {"flags-matter": n * 3 // 10, "intermediate": n * 2 // 10, "error": n // 10, "metadata": n * 2 // 10, "other": n * 2 // 10,
+             "tags": 6}
+    for k in ("flags-matter", "intermediate", "error", "metadata", "other", "tags"):
         pool = [x for x in strata[k] if len(x["case"]["sql"]) < 3000]
         sample += chk.rng.sample(pool, min(quota[k], len(pool)))
         stats[f"orders_sample/{k}"] = min(quota[k], len(pool))
